@@ -100,7 +100,7 @@ func (ex *Exec) finishBuiltin(st *State, pc *preparedCall, k func(*State, []Val)
 		}
 	case "new":
 		t := ex.typeOf(call)
-		elem := t.Underlying().(*types.Pointer).Elem()
+		elem := under(t).(*types.Pointer).Elem()
 		p := ex.allocRef(st, "new")
 		es := ex.sortOf(elem)
 		ex.store(st, p, elem, Val{T: zeroOf(es), S: es, GoT: elem})
@@ -108,7 +108,7 @@ func (ex *Exec) finishBuiltin(st *State, pc *preparedCall, k func(*State, []Val)
 		one(p)
 	case "delete":
 		m := a[0]
-		key := ex.convert(st, a[1], ex.typeOf(call.Args[0]).Underlying().(*types.Map).Key())
+		key := ex.convert(st, a[1], under(ex.typeOf(call.Args[0])).(*types.Map).Key())
 		ex.assignTo(st, call.Args[0], mapDelete(m, key.T), func(st2 *State) { k(st2, nil) })
 	case "clear":
 		t := ex.typeOf(call.Args[0])
@@ -520,7 +520,7 @@ func (ex *Exec) scanEffects(n ast.Node, vars map[types.Object]bool, eff *effects
 				e = x.X
 			case *ast.SelectorExpr:
 				if sel := info.Selections[x]; sel != nil && sel.Kind() == types.FieldVal {
-					if _, isPtr := ex.typeOf(x.X).Underlying().(*types.Pointer); isPtr {
+					if _, isPtr := under(ex.typeOf(x.X)).(*types.Pointer); isPtr {
 						if eff != nil {
 							eff.heapAll = true // conservative: a field store
 						}
@@ -627,7 +627,7 @@ func (ex *Exec) scanEffects(n ast.Node, vars map[types.Object]bool, eff *effects
 					eff.heapAll = true
 					if _, isFn := calleeOf(info, s).(*types.Func); !isFn {
 						if tv, ok := info.Types[fun]; ok && tv.Type != nil {
-							if sg, ok := tv.Type.Underlying().(*types.Signature); ok && funcValueIsSink(sg) {
+							if sg, ok := under(tv.Type).(*types.Signature); ok && funcValueIsSink(sg) {
 								eff.ghost["fail"] = true
 							}
 						}
@@ -642,7 +642,7 @@ func (ex *Exec) scanEffects(n ast.Node, vars map[types.Object]bool, eff *effects
 				}
 				for _, a := range s.Args {
 					if t, ok := info.Types[a]; ok && t.Type != nil {
-						if _, isMap := t.Type.Underlying().(*types.Map); isMap {
+						if _, isMap := under(t.Type).(*types.Map); isMap {
 							mark(a)
 						}
 					}
@@ -747,7 +747,7 @@ var _ = packages.NeedName
 // boxedComps: the heap components an address-taken local of this type lives in.
 func (ex *Exec) boxedComps(obj types.Object) []string {
 	t := obj.Type()
-	if stt, ok := t.Underlying().(*types.Struct); ok {
+	if stt, ok := under(t).(*types.Struct); ok {
 		var out []string
 		for i := 0; i < stt.NumFields(); i++ {
 			out = append(out, ex.compName(t, fieldAcc(stt.Field(i), i)))
